@@ -101,3 +101,45 @@ vproof! {
         kani::cover!(p < 0.5 && p > 0.0 && rng.pos == 4, "split algorithm, d = 1");
     }
 }
+
+//@ id: c05_geometric_new_tiny_p
+//@ besteffort: yes
+//@ prop: C05
+//@ tier: thorough
+//@ cap: 3600
+//@ funcs: Geometric::new (squaring loop for tiny p; agreement with the `pi == 1.0` shortcut of sample)
+//@ bounds: every p in (0, 2^-8); squaring loop unwound 60 times with the unwinding assertion ON
+//@ assumes: none
+#[kani::proof]
+#[kani::unwind(60)]
+fn c05_geometric_new_tiny_p() {
+    let p: f64 = kani::any();
+    kani::assume(p > 0.0 && p < 0.00390625);
+    let d = Geometric::new(p).unwrap();
+    // sample()'s D-loop `while u < pi` terminates quickly only if pi <= 1/2; the only other legal state is the
+    // documented degenerate one (1 - p rounds to 1: pi == 1, sample returns u64::MAX without looping)
+    vassert!(d.pi == 1.0 || (d.pi <= 0.5 && d.pi > 0.0), "Geometric::new: pi is neither 1 (degenerate) nor <= 1/2: sample would need ~1/(1-pi) words");
+    vassert!((d.pi == 1.0) == (1.0 - p == 1.0), "Geometric::new: degenerate state does not match `1 - p == 1`");
+    vassert!(d.k <= 60, "Geometric::new: k out of range");
+    kani::cover!(d.pi == 1.0, "degenerate");
+    kani::cover!(d.k == 20, "k = 20");
+}
+
+//@ id: c05_geometric_new_boundary
+//@ prop: C05
+//@ tier: quick
+//@ cap: 600
+//@ funcs: Geometric::new (boundary between the degenerate state and the squaring loop)
+//@ bounds: every p in (0, 2^-50): 1 - p is 1, 1 - 2^-53 or a few ulps below; squaring loop unwound 60 times (unwinding assertion ON)
+//@ assumes: none
+#[kani::proof]
+#[kani::unwind(60)]
+fn c05_geometric_new_boundary() {
+    let p: f64 = kani::any();
+    kani::assume(p > 0.0 && p < 8.881784197001252e-16);
+    let d = Geometric::new(p).unwrap();
+    vassert!(d.pi == 1.0 || (d.pi <= 0.5 && d.pi > 0.0), "Geometric::new: pi is neither 1 (degenerate) nor <= 1/2: sample would need ~1/(1-pi) words");
+    vassert!((d.pi == 1.0) == (1.0 - p == 1.0), "Geometric::new: degenerate state does not match `1 - p == 1`");
+    kani::cover!(d.pi == 1.0, "degenerate");
+    kani::cover!(d.pi <= 0.5, "squared down");
+}
